@@ -16,7 +16,9 @@ pub(crate) struct QueueInner<S, K: Clone> {
     /// Ticket of the one valid ready event of each key. A key never has more than one turn
     /// pending: an event in `ready_queue` whose ticket differs is stale and skipped when popped.
     queued: HashMap<K, usize>,
-    streams: HashMap<K, Pin<Box<S>>>,
+    /// Every stream with the number of the connection it belongs to (0 if the owner does not
+    /// number them): two connections of one peer share the key, not the number.
+    streams: HashMap<K, (u64, Pin<Box<S>>)>,
     waker: Option<Waker>,
 }
 
@@ -38,8 +40,13 @@ impl<S, K: Clone + Eq + Hash> QueueInner<S, K> {
         None
     }
 
+    #[allow(dead_code)]
     pub fn insert(&mut self, k: K, s: S) {
-        self.streams.insert(k.clone(), Box::pin(s));
+        self.insert_conn(k, 0, s)
+    }
+
+    pub fn insert_conn(&mut self, k: K, conn: u64, s: S) {
+        self.streams.insert(k.clone(), (conn, Box::pin(s)));
         let priority = self.counter.fetch_add(1, atomic::Ordering::Relaxed);
         self.push_event(ReadyEvent { priority, key: k });
         if let Some(w) = &self.waker {
@@ -49,6 +56,13 @@ impl<S, K: Clone + Eq + Hash> QueueInner<S, K> {
 
     pub fn remove(&mut self, k: &K) {
         self.streams.remove(k);
+    }
+
+    /// Removes the stream of connection `conn`, not one a newer connection registered under `k`
+    pub fn remove_conn(&mut self, k: &K, conn: u64) {
+        if matches!(self.streams.get(k), Some((c, _)) if *c == conn) {
+            self.streams.remove(k);
+        }
     }
 
     /// Drops every stream. A stream that was polled holds (through the waker registered with its
@@ -63,7 +77,8 @@ impl<S, K: Clone + Eq + Hash> QueueInner<S, K> {
 pub struct FairQueue<S, K: Clone> {
     block_on_no_clients: bool,
     inner: Arc<Mutex<QueueInner<S, K>>>,
-    on_stream_end: Option<Box<dyn Fn(&K) + Send + Sync>>,
+    on_stream_end: Option<Box<dyn Fn(&K, u64) + Send + Sync>>,
+    last_conn: u64,
 }
 
 #[derive(Clone)]
@@ -127,7 +142,7 @@ where
         let fair_queue = self.get_mut();
         let mut pending_polls = 0;
         loop {
-            let (event, mut io_stream) = {
+            let (event, conn, mut io_stream) = {
                 let mut inner = fair_queue.inner.lock();
                 inner.waker = Some(cx.waker().clone());
                 let event = match inner.pop_event() {
@@ -141,7 +156,7 @@ where
                     }
                 };
                 match inner.streams.remove(&event.key) {
-                    Some(stream) => (event, stream),
+                    Some((conn, stream)) => (event, conn, stream),
                     None => continue,
                 }
             };
@@ -165,26 +180,24 @@ where
                     });
                     // A stream registered under this key while this one was being polled is a
                     // newer connection of the same peer: it stays, this one is dropped.
-                    inner.streams.entry(event.key).or_insert(io_stream);
+                    inner.streams.entry(event.key).or_insert((conn, io_stream));
+                    drop(inner);
+                    fair_queue.last_conn = conn;
                     return Poll::Ready(item);
                 }
                 Poll::Ready(None) => {
                     // Peer disconnected. Don't put the stream back.
                     // Continue to poll other streams instead of returning None immediately.
                     drop(io_stream);
-                    // (unless a newer connection of the same peer has registered meanwhile)
-                    let superseded = fair_queue.inner.lock().streams.contains_key(&event.key);
-                    if !superseded {
-                        if let Some(on_stream_end) = &fair_queue.on_stream_end {
-                            on_stream_end(&event.key);
-                        }
+                    if let Some(on_stream_end) = &fair_queue.on_stream_end {
+                        on_stream_end(&event.key, conn);
                     }
                     continue;
                 }
                 Poll::Pending => {
                     let mut inner = fair_queue.inner.lock();
                     // (as above: never put this stream back over a newer one)
-                    inner.streams.entry(event.key).or_insert(io_stream);
+                    inner.streams.entry(event.key).or_insert((conn, io_stream));
                     pending_polls += 1;
                     if pending_polls > inner.streams.len() {
                         // Every stream had its turn. A stream that wakes itself while answering
@@ -210,6 +223,7 @@ impl<S, K: Clone> FairQueue<S, K> {
         Self {
             block_on_no_clients,
             on_stream_end: None,
+            last_conn: 0,
             inner: Arc::new(Mutex::new(QueueInner {
                 counter: atomic::AtomicUsize::new(0),
                 ready_queue: BinaryHeap::new(),
@@ -224,11 +238,16 @@ impl<S, K: Clone> FairQueue<S, K> {
         self.inner.clone()
     }
 
-    /// `f` is called with the key of every stream that ends. A peer that closes its connection
-    /// in an orderly way produces no error item, so this is the only way for the owner of the
-    /// queue to learn that the peer has gone.
-    pub(crate) fn on_stream_end(&mut self, f: impl Fn(&K) + Send + Sync + 'static) {
+    /// `f` is called with the key and the connection number of every stream that ends. A peer
+    /// that closes its connection in an orderly way produces no error item, so this is the only
+    /// way for the owner of the queue to learn that the connection has gone.
+    pub(crate) fn on_stream_end(&mut self, f: impl Fn(&K, u64) + Send + Sync + 'static) {
         self.on_stream_end = Some(Box::new(f));
+    }
+
+    /// The connection number of the stream that produced the item returned last
+    pub(crate) fn last_conn(&self) -> u64 {
+        self.last_conn
     }
 }
 
